@@ -169,7 +169,22 @@ func (n *GSNet) runPump(k [2]peer.ID) {
 			if n.OnExt != nil && len(m.exts) > 0 {
 				n.OnExt(from, to, "recv", m.kind, m.exts)
 			}
-			ep.receive(from, m)
+			name := "graphsync-callbacks(" + []string{"new-request", "cancel", "update", "response"}[m.kind]
+			if dm := dtOf(m.exts); dm != nil {
+				name += " carrying " + Summarise(dm).Kind()
+			}
+			name += ")"
+			if n.W.R != nil {
+				epp := ep
+				n.W.R.Callbacks = append(n.W.R.Callbacks, nil)
+				idx := len(n.W.R.Callbacks) - 1
+				cb := &Callback{Name: name, Node: ep.Label, Task: n.W.S.CurrentTask(), Step: n.W.S.Steps, Dead: func() bool { return epp.dead }}
+				n.W.R.Callbacks[idx] = cb
+				ep.receive(from, m)
+				cb.Done = true
+			} else {
+				ep.receive(from, m)
+			}
 		}
 	}
 	n.pump[k] = false
@@ -252,6 +267,7 @@ type GS struct {
 	// dedup: links already sent per (peer, dedup key)
 	sentLinks map[string]map[cid.Cid]int
 	ended     map[graphsync.RequestID]int
+	rawNext   bool
 	// Completions logs every firing of the completed-response listeners (responder side)
 	Completions []GSCompletion
 	// Terminations logs how each outgoing request ended (requester side)
@@ -588,7 +604,16 @@ func (a *outReqActions) UsePersistenceOption(name string) { a.persist = name }
 func (a *outReqActions) UseLinkTargetNodePrototypeChooser(traversal.LinkTargetNodePrototypeChooser) {}
 func (a *outReqActions) MaxLinks(n uint64) { a.maxLinks = n }
 
+// RequestRaw issues a request the way a second graphsync instance with the same peer identity would: the
+// outgoing-request hooks registered on this endpoint (the node's own data-transfer transport) do not see it.
+func (g *GS) RequestRaw(ctx context.Context, p peer.ID, root ipld.Link, sel ipld.Node, exts ...graphsync.ExtensionData) (<-chan graphsync.ResponseProgress, <-chan error) {
+	g.rawNext = true
+	return g.Request(ctx, p, root, sel, exts...)
+}
+
 func (g *GS) Request(ctx context.Context, p peer.ID, root ipld.Link, sel ipld.Node, exts ...graphsync.ExtensionData) (<-chan graphsync.ResponseProgress, <-chan error) {
+	raw := g.rawNext
+	g.rawNext = false
 	simrt.Yield("gs.request")
 	r := &outReq{id: g.newRequestID(), to: p, root: root.(cidlink.Link).Cid, sel: sel, exts: exts, lsys: g.lsys,
 		respCh: make(chan graphsync.ResponseProgress), errCh: make(chan error, 64), skips: map[int]bool{}, seq: g.net.nreq}
@@ -606,7 +631,9 @@ func (g *GS) Request(ctx context.Context, p peer.ID, root ipld.Link, sel ipld.No
 	}
 	rd := reqData{id: r.id, root: r.root, sel: sel, exts: exts, typ: graphsync.RequestTypeNew}
 	acts := &outReqActions{}
-	g.outReqHooks.each(func(h graphsync.OnOutgoingRequestHook) { h(p, rd, acts) })
+	if !raw {
+		g.outReqHooks.each(func(h graphsync.OnOutgoingRequestHook) { h(p, rd, acts) })
+	}
 	if acts.persist != "" {
 		ls, ok := g.persist[acts.persist]
 		if !ok {
